@@ -1055,9 +1055,12 @@ void QXmppStanza::extensionsToXml(QXmlStreamWriter *xmlWriter, QXmpp::SceMode sc
         xmlWriter->writeEndElement();
     }
 
-    // other extensions
-    for (const auto &extension : d->extensions) {
-        extension.toXml(xmlWriter);
+    // other extensions: when a stanza is split for end-to-end encryption, they are part of the
+    // sensitive content (see QXmppMessage::serializeExtensions()) and never of the public part
+    if (sceMode == QXmpp::SceAll) {
+        for (const auto &extension : d->extensions) {
+            extension.toXml(xmlWriter);
+        }
     }
 }
 
